@@ -161,7 +161,22 @@ def r4_issuer_provenance(run):
             gs = facts(cfg, nd.id)
             # guarded by "<the variable being (re)assigned> is None"
             tgt = unparse(s.targets[0])
-            run.check(Q("%s is None" % tgt, True) in gs, "R4",
+            ok = Q("%s is None" % tgt, True) in gs
+            if not ok:
+                # ... or by "<a variable holding the element's own Issuer> is
+                # None" under whatever name (a helper's result)
+                for e, pol, _b in cfg.guards(nd.id):
+                    if pol and isinstance(e, ast.Compare) and \
+                            isinstance(e.ops[0], ast.Is) and \
+                            isinstance(e.left, ast.Name) and \
+                            isinstance(e.comparators[0], ast.Constant) and \
+                            e.comparators[0].value is None:
+                        src = {(a.kind, a.text) for a in org.of(e.left, nd.id)}
+                        if ("attr", "item.issuer.text") in src and all(
+                                k == "const" or t == "item.issuer.text"
+                                for k, t in src):
+                            ok = True
+            run.check(ok, "R4",
                       fi.qual + "::issuer-fallback-guard",
                       "parameter issuer used only when the element has none",
                       "issuer parameter overrides the element's own Issuer "
